@@ -364,6 +364,16 @@ func (l *Lexer) consumeNumber(noPanic bool) {
 		break
 	}
 
+	if base == 16 && i == 2 {
+		// "0x" alone is not an integer literal, at least one hex digit has to follow the prefix.
+		if noPanic {
+			l.skipN(i)
+			l.Token.Kind = token.TokenBad
+			return
+		}
+		l.panicfAtPosition(token.Pos(l.pos), token.Pos(l.pos+i), "invalid hex integer literal: no digits after %q", l.slice(0, i))
+	}
+
 	l.skipN(i)
 	if int {
 		l.Token.Kind = token.TokenInt
